@@ -120,6 +120,7 @@ int main(int argc, char** argv) {
     states += L.set.counters[0] - 1; transitions += L.set.counters[1];
   }
 
+  lsm_protect_sources() = false;  // from here on ops run in several threads of one process
   // ---- part 2: Engine C ------------------------------------------------------------------------------------
   std::vector<Scenario> scen;
   {
@@ -127,7 +128,7 @@ int main(int argc, char** argv) {
     std::vector<int> heavy, light;
     for (size_t k = nsimple; k < nmod_end; ++k) {
       const std::string& n = L.ops[k].name;
-      if (n.find("@+8") == std::string::npos) continue;  // the scheduler works on the unaligned variants (the aligned ones are Engine B's)
+      if (n.find("@src0") == std::string::npos && !(n.find("@+8") != std::string::npos && n.find("vec_znx_zero") != std::string::npos)) continue;  // the scheduler works on one alignment pattern (sources aligned, the rest not); all four are Engine B's
       if (n.find("|N=16|") == std::string::npos && !(th && n.find("|N=4|") != std::string::npos)) continue;  // the large dimensions (N = 256, 8192) are Engine B's job  // quick: N=16 (and NTT120 N=16); thorough adds N=4 (column-major vmp layout)
       bool h = n.find("vmp") != std::string::npos || n.find("dft") != std::string::npos || n.find("svp") != std::string::npos || n.find("small") != std::string::npos || n.find("normalize") != std::string::npos;
       (h ? heavy : light).push_back((int)k);
